@@ -239,7 +239,7 @@ fn main() {
             rotate_every: r["rotate_every"].as_u64().unwrap() as usize,
             writers: r["writers"].as_array().unwrap().iter().map(|x| x.as_u64().unwrap() as usize).collect(),
             faults: r["faults"].as_array().unwrap().iter().map(|f| {
-                let k = match f[1].as_str().unwrap() { "fail" => WalFault::Fail, "partial" => WalFault::Partial, _ => WalFault::DiskFull };
+                let k = match f[1].as_str().unwrap() { "fail" => WalFault::Fail, "partial" => WalFault::Partial, "partial-uncounted" => WalFault::PartialUncounted, _ => WalFault::DiskFull };
                 (f[0].as_u64().unwrap() as usize, k)
             }).collect(),
             advances: r["advances"].as_u64().unwrap() as u32,
@@ -297,7 +297,7 @@ fn main() {
         scenarios.push(b.clone());
         let mut ch = polex::replay_prefix(&[]);
         let calls = run_once(b, &mut ch).log.len() + 2;
-        let kinds = [WalFault::Fail, WalFault::Partial, WalFault::DiskFull];
+        let kinds = [WalFault::Fail, WalFault::Partial, WalFault::DiskFull, WalFault::PartialUncounted];
         let three = b.writers.iter().sum::<usize>() >= 3;
         if !thorough && three && b.writers.len() == 3 {
             // quick: 3 writers explored fault-free and with sync faults only
